@@ -103,7 +103,12 @@ Definition expand_iri (a : actx) (v : bytes) (vocab docrel : bool) : option (opt
   | None => None
   end.
 
-Definition is_abs (s : bytes) : bool := has_scheme s && negb (is_bnode_id s).
+(* characters an IRI cannot hold: statements with such IRIs are dropped by the conversion to RDF; the model declines *)
+Definition iri_chars_ok (s : bytes) : bool :=
+  forallb (fun c => negb ((c <=? 32)%N || N.eqb c 60 || N.eqb c 62 || N.eqb c 34 || N.eqb c 123 || N.eqb c 125 || N.eqb c 124 || N.eqb c 92 || N.eqb c 94 || N.eqb c 96)) s.
+Definition lang_chars_ok (l : bytes) : bool := forallb (fun c => (32 <? c)%N) l.
+
+Definition is_abs (s : bytes) : bool := has_scheme s && negb (is_bnode_id s) && iri_chars_ok s.
 
 (* 4.2 create term definition *)
 Fixpoint create_term (fuel : nat) (lc : list (bytes * json)) (a : actx) (dn : list bytes) (term : bytes)
@@ -197,7 +202,7 @@ Fixpoint create_term (fuel : nat) (lc : list (bytes * json)) (a : actx) (dn : li
                                | None, _ => Some LgUnset
                                | Some _, (TyId | TyVocab | TyIri _) => Some LgUnset
                                | Some JNull, TyNone => Some LgNull
-                               | Some (JStr l), TyNone => Some (LgTag l)
+                               | Some (JStr l), TyNone => if lang_chars_ok l then Some (LgTag l) else None
                                | Some _, TyNone => None
                                end) with
                         | None => None
@@ -228,7 +233,7 @@ Definition process_obj (a : actx) (lc : list (bytes * json)) : option actx :=
   if negb (Nat.eqb (length (nodup_b beq (map fst lc))) (length lc)) then None else
   match (match lookup (s2b "@base") lc with
          | None => Some a
-         | Some (JStr b) => Some (ACtx (resolve_base (a_base a) b) (a_vocab a) (a_lang a) (a_terms a))
+         | Some (JStr b) => Some (ACtx (if has_scheme b then b else resolve_base (a_base a) b) (a_vocab a) (a_lang a) (a_terms a))
          | Some _ => None
          end) with
   | None => None
@@ -248,7 +253,7 @@ Definition process_obj (a : actx) (lc : list (bytes * json)) : option actx :=
       | Some a =>
           match (match lookup (s2b "@language") lc with
                  | None => Some a
-                 | Some (JStr l) => Some (ACtx (a_base a) (a_vocab a) (Some l) (a_terms a))
+                 | Some (JStr l) => if lang_chars_ok l then Some (ACtx (a_base a) (a_vocab a) (Some l) (a_terms a)) else None
                  | Some JNull => Some (ACtx (a_base a) (a_vocab a) None (a_terms a))
                  | Some _ => None
                  end) with
@@ -283,7 +288,7 @@ Definition process_ctx (base0 : bytes) (a : actx) (c : json) : option actx :=
 (* ---------- values ---------- *)
 
 Definition classify (s : bytes) : option jterm :=
-  if is_bnode_id s then Some (TB false (skipn 2 s)) else if has_scheme s then Some (TI s) else None.
+  if is_bnode_id s then Some (TB false (skipn 2 s)) else if has_scheme s && iri_chars_ok s then Some (TI s) else None.
 
 Definition big21 : Z := 1000000000000000000000%Z.
 
@@ -347,6 +352,21 @@ Fixpoint link_list (cells objs : list jterm) (g : option jterm) : list jquad :=
 
 Definition gen_label (n : nat) : bytes := dec_print (N.of_nat n).
 
+(* an element of a graph (top level, @graph) which is a value object or a list object is free-floating: it is dropped with
+   everything in it *)
+Definition free_floating (base0 : bytes) (a : actx) (v : json) : option bool :=
+  match v with
+  | JObj m =>
+      match (match lookup (s2b "@context") m with Some c => process_ctx base0 a c | None => Some a end) with
+      | None => None
+      | Some a' => match expand_keys a' m with
+                   | Some ek => Some (Nat.ltb 0 (ek_count "@value" ek) || Nat.ltb 0 (ek_count "@list" ek))
+                   | None => None
+                   end
+      end
+  | _ => Some false
+  end.
+
 Section Eval.
 Variable base0 : bytes.
 
@@ -374,6 +394,7 @@ Definition value_object (a : actx) (ek : list (option bytes * bytes * json)) : o
         end
     | Some _, None => None
     | None, Some (JStr l) =>
+        if negb (lang_chars_ok l) then None else
         match ek_lookup "@value" ek with
         | Some (JStr s) => Some (Some (lang_lit s (Some l)))
         | Some JNull => Some None
@@ -499,9 +520,14 @@ Definition node_step (valuef : valuefn) (a : actx) (g : option jterm) (ek : list
                           fold_left (fun st v =>
                             match st, v with
                             | Some (s, qs, k), JObj _ =>
-                                match valuef a (Some s) None v k with
-                                | Some (_, qs', k') => Some (s, qs ++ qs', k')
+                                match free_floating base0 a v with
                                 | None => None
+                                | Some true => Some (s, qs, k)
+                                | Some false =>
+                                    match valuef a (Some s) None v k with
+                                    | Some (_, qs', k') => Some (s, qs ++ qs', k')
+                                    | None => None
+                                    end
                                 end
                             | _, _ => None
                             end) (as_list v) (Some (s, qs, k))
@@ -509,6 +535,7 @@ Definition node_step (valuef : valuefn) (a : actx) (g : option jterm) (ek : list
                     else if is_keyword r then None
                     else if is_bnode_id r then None
                     else if negb (has_scheme r) then (if existsb (N.eqb 58) r then None else Some (s, qs, k))
+                    else if negb (iri_chars_ok r) then None
                     else
                       let td := match lookup key (a_terms a) with Some d => d | None => None end in
                       let is_list_obj := match v with JObj _ => false | _ => true end in
@@ -555,9 +582,14 @@ Definition jsonld_doc (base : bytes) (doc : json) : option (list jquad) :=
   let top (st : option (list jquad * nat)) (v : json) :=
     match st, v with
     | Some (qs, k), JObj _ =>
-        match value base fuel a0 None None v k with
-        | Some (_, qs', k') => Some (qs ++ qs', k')
+        match free_floating base a0 v with
         | None => None
+        | Some true => Some (qs, k)
+        | Some false =>
+            match value base fuel a0 None None v k with
+            | Some (_, qs', k') => Some (qs ++ qs', k')
+            | None => None
+            end
         end
     | _, _ => None
     end in
@@ -577,9 +609,14 @@ Definition jsonld_doc (base : bytes) (doc : json) : option (list jquad) :=
                       (fold_left (fun st v =>
                          match st, v with
                          | Some (qs, k), JObj _ =>
-                             match value base fuel a None None v k with
-                             | Some (_, qs', k') => Some (qs ++ qs', k')
+                             match free_floating base a v with
                              | None => None
+                             | Some true => Some (qs, k)
+                             | Some false =>
+                                 match value base fuel a None None v k with
+                                 | Some (_, qs', k') => Some (qs ++ qs', k')
+                                 | None => None
+                                 end
                              end
                          | _, _ => None
                          end) (as_list gv) (Some ([], 0)))
